@@ -161,6 +161,7 @@ func main() {
 		})
 	})
 	runLong(r)
+	runContent(r)
 	runReal(r)
 	runPlugins(r)
 	cliStage(r)
@@ -516,5 +517,65 @@ func runLong(r *mon.Run) {
 	}
 	if r.Counter("long_list_cases") == 0 {
 		r.Inconclusive("no long recipient list was exercised")
+	}
+}
+
+// runContent: what the characters inside a label ARE must not matter to the
+// comparison: labels are opaque strings and sets of them are compared as sets.
+// Label values with separators, empty labels, control bytes, case variants;
+// every pair of label sets of size <= 2 over them, as lists of two recipients
+// and with a compatible third one.
+func runContent(r *mon.Run) {
+	values := []string{"a", "b", "a,b", "", ",", "a,", ",b", "a b", "A", "a\x00b", "a\nb", "postquantum", "post", "quantum", "\u00e9", "e\u0301"}
+	var sets [][]string
+	sets = append(sets, []string{})
+	for i, v := range values {
+		sets = append(sets, []string{v})
+		for _, w := range values[i+1:] {
+			sets = append(sets, []string{v, w}, []string{w, v})
+		}
+	}
+	canon := func(l []string) string {
+		c := append([]string(nil), l...)
+		sort.Strings(c)
+		return fmt.Sprintf("%q", c)
+	}
+	n := 0
+	mon.Par(len(sets), func(i int) {
+		for j := range sets {
+			for third := 0; third < 2; third++ {
+				if third == 1 && (i+j)%5 != 0 {
+					continue
+				}
+				calls := 0
+				rs := []age.Recipient{
+					mk(labelSpec{name: "A", labels: sets[i]}, 0, false, &calls),
+					mk(labelSpec{name: "B", labels: sets[j]}, 1, false, &calls),
+				}
+				if third == 1 {
+					rs = append(rs, mk(labelSpec{name: "C", labels: sets[i]}, 2, false, &calls))
+				}
+				dst := &mon.ObservingWriter{}
+				_, err := age.Encrypt(dst, rs...)
+				want := canon(sets[i]) == canon(sets[j])
+				r.Eval(1)
+				desc := fmt.Sprintf("label content %q vs %q third=%d", sets[i], sets[j], third)
+				r.Distinct(desc)
+				r.Count("label_content_cases", 1)
+				replay := map[string]any{"first": sets[i], "second": sets[j]}
+				switch {
+				case err == nil && !want:
+					r.Violate("accepted-incompatible:label-content", "Encrypt accepted recipients with different label sets: "+desc, replay)
+				case err != nil && want:
+					r.Violate("refused-compatible:label-content", fmt.Sprintf("Encrypt refused equal label sets: %s: %v", desc, err), replay)
+				case err != nil && dst.Len() != 0:
+					r.Violate("bytes-on-refusal:label-content", fmt.Sprintf("%s: refused after %d bytes", desc, dst.Len()), replay)
+				}
+			}
+		}
+	})
+	_ = n
+	if r.Counter("label_content_cases") == 0 {
+		r.Inconclusive("no label-content case ran")
 	}
 }
